@@ -58,8 +58,7 @@ def parseTarget (s : String) : Option Target :=
   | ["dyn"] => some .dyn
   | ["array", n] => n.toNat?.map .array
   | ["slice", n] => n.toNat?.map .slice
-  -- `SliceWithHeader<u64, Elem>` (`SliceWithHeaderPtrMeta`, `Thin = u64`): as a slice for the model
-  | ["swh", n] => n.toNat?.map .slice
+  | ["swh", n] => n.toNat?.map .swh
   | ["str", n] => n.toNat?.map .str
   | ["zst", a] => a.toNat?.map .zst
   | ["zc", a, m] =>
@@ -95,7 +94,7 @@ def showTy : Ty → String
   | .orig => "orig" | .unit => "unit" | .uns => "uns"
 
 def showMeta : Meta → String
-  | .none => "-" | .len n => toString n | .vtable => "vt"
+  | .none => "-" | .len n => toString n | .vtable _ => "vt"
 
 def showShape (t : Target) (p q : PtrVal) : String :=
   let same := if q.obj = p.obj ∧ q.off = p.off then 1 else 0
@@ -127,7 +126,7 @@ def firstFailure (a : Alloc) : Chain → PtrVal → Nat → Option Nat
 /-- Name of the type whose destructor the harness logs for a target (`-`: nothing to log). -/
 def dropTagName : Target → String
   | .sized | .dyn => "Payload"
-  | .array n | .slice n => if n = 0 then "-" else "Elem"
+  | .array n | .slice n | .swh n => if n = 0 then "-" else "Elem"
   | .str _ => "-"
   | .zst a => s!"Z{a}"
   | .zcached a _ => s!"ZC{a}"
